@@ -67,6 +67,9 @@ func (c *Ctx) Pick(q, t int) int {
 
 // BeginCases sets the preamble (Require lines) and the Coq type of a case.
 func (c *Ctx) BeginCases(requires string, caseType string, perShard int) {
+	if c.cur != nil && c.curN > 0 && (requires != c.header || caseType != c.caseType) {
+		c.flushShard() // cases collected so far belong to the previous preamble
+	}
 	c.header = requires
 	c.caseType = caseType
 	if perShard > 0 {
